@@ -87,6 +87,51 @@ def h_convert(ctx, cls, attrs):
     ctx.check("repetition leaves the input untouched", tree_fp(tree) == fp_tree and class_state_fp() == fp_cls)
 
 
+# ---------------------------------------------------------------- a long workload between two conversions of one text
+def other_texts(kind, n):
+    """n distinct valid texts of the kind (built natively)"""
+    import datetime as _dt
+    if kind in ("DateTime", "Time"):
+        t0 = _dt.datetime(1999, 1, 1, 7, 30)
+        if kind == "DateTime":
+            return [(t0 + _dt.timedelta(days=i, minutes=7 * i)).strftime("%Y%m%d%H%M%S") for i in range(n)]
+        return [(t0 + _dt.timedelta(seconds=61 * i)).strftime("%H%M%S") for i in range(n)]
+    if kind == "Decimal":
+        return ["%d.%02d" % (i, i % 100) for i in range(n)]
+    if kind == "Integer":
+        return [str(1000 + i) for i in range(n)]
+    return ["text %04d" % i for i in range(n)]
+
+
+rt.NATIVE_FUNCS.add(other_texts)
+
+
+def h_long_workload(ctx, kind, n):
+    """one text is converted, then n distinct other texts through the same kind of converter (a year of daily postings,
+    hundreds of payees ...), then the first text again: same value"""
+    from harness.common import same_value
+    if kind == "DateTime":
+        conv, text = Types.DateTime(), "202002" + ctx.str("dd", 2, "0-9") + "093000.000[-5:EST]"
+        ctx.assume(ctx.all([int(text[6:8]) >= 1, int(text[6:8]) <= 29]))
+    elif kind == "Time":
+        conv, text = Types.Time(), "09" + ctx.str("mm", 2, "0-5") + "00"
+    elif kind == "Decimal":
+        conv, text = Types.Decimal(), ctx.str("d", 2, "0-9") + ".5"
+    elif kind == "Integer":
+        conv, text = Types.Integer(), ctx.str("d", 3, "0-9")
+    else:
+        conv, text = Types.String(32), "x" + ctx.str("s", 2, NOWS)
+    fp_cls = class_state_fp()
+    v0 = conv.convert(text)
+    for o in other_texts(kind, n):
+        conv.convert(o)
+        getattr(Types, kind)(32).convert(o) if kind == "String" else getattr(Types, kind)().convert(o)
+    v1 = conv.convert(text)
+    v2 = (Types.String(32) if kind == "String" else getattr(Types, kind)()).convert(text)
+    ctx.check("the same input gives an equal result whatever was processed in between", same_value(ctx, v0, v1) and same_value(ctx, v0, v2))
+    ctx.check("converting does not modify class-level state of the library", class_state_fp() == fp_cls)
+
+
 # ---------------------------------------------------------------- writing an instance
 def h_serialize(ctx, cls):
     K = ofxgen.class_by_name(cls)
@@ -207,7 +252,7 @@ def h_dispatch(ctx):
     ctx.check("required-ness of the instance being used is still honoured after re-registration", none_ok and a.unconvert(None) is None)
 
 
-HARNESSES = dict(client_serialize=h_client_serialize, convert=h_convert, serialize=h_serialize, parse=h_parse, parse_v2=h_parse_v2, dispatch=h_dispatch)
+HARNESSES = dict(long_workload=h_long_workload, client_serialize=h_client_serialize, convert=h_convert, serialize=h_serialize, parse=h_parse, parse_v2=h_parse_v2, dispatch=h_dispatch)
 
 META = dict(
     bounds=dict(convert="per class: the class's document with one element text symbolic (its type's lexical space, or 2 junk characters), converted, an unrelated workload, converted again",
@@ -246,6 +291,8 @@ def instances(tier, seed):
             mk(f"convert[{n}]", "convert", dict(cls=n, attrs=els))
         mk(f"serialize[{n}]", "serialize", dict(cls=n))
     mk("client_serialize", "client_serialize", {})
+    for kind in ("DateTime", "Time", "Decimal", "Integer", "String"):
+        mk(f"long_workload[{kind}]", "long_workload", dict(kind=kind, n=400 if not full else 1200))
     for n in (1, 2):
         mk(f"parse[{n}]", "parse", dict(n=n))
         mk(f"parse_v2[{n}]", "parse_v2", dict(n=n))
